@@ -128,6 +128,24 @@ CHECKS = {
         'need is defined by the straightforward lazy implementation; '
         'pipelines needing >400 source elements are excluded',
         'DESIGN.md section 2, C14'),
+    'C11': (
+        'probe-instrumented library sweep, Hypothesis expressions over the '
+        'lazily evaluating operators against an evaluation-order model, '
+        'per-element lambda contracts',
+        'Generated-input search with a registered side-effecting probe '
+        'tick(id, value): (a) every registered definition with every eager '
+        'argument probed, positional and keyword spellings in permuted '
+        'order: log = probes in source order, once each; (b) Hypothesis ASTs '
+        'of depth <=4 over and/or/not/=/list/map/?./->/switch/selectCase/'
+        'switchCase/coalesce/examine with a probe on every operand, log and '
+        'value predicted by a model evaluator of their documented meaning; '
+        '(c) 30 per-element contracts (select, where, any/all, takeWhile/'
+        'skipWhile, indexWhere, toDict, groupBy, distinct, aggregate, join, '
+        'generate, ...) over lists and one-shot iterators. The ordering '
+        'functions\' per-comparison key evaluation is a recorded known '
+        'finding.',
+        'the probe is an ordinary registered function; contracts are written '
+        'from the docstrings', 'DESIGN.md section 2, C11'),
     'C15': (
         'exhaustive all-pairs enumeration of a boundary corpus under every '
         'scalar operator against a reference model, law checks through yaql, '
